@@ -11,6 +11,8 @@ Line-protocol driver for the quorum model (C06).
   colony <n>                                                 construct the object now with n built-in members
   add <nameHex> <w> · addsame <idx> <w> · remove <nameHex> · setw <nameHex> <w>
   relupd <nameHex> <0|1> · relall <permit|block|abstain|defer>      `update_reliability` / `update_all_reliability`
+  attr strategy <s> · attr threshold <c|none> · attr minvoters <n>  direct assignment of the public attributes
+  ldel <idx> · linsert <idx> <nameHex> <w> · pset <idx> <w|_> <rel|_>   direct edits of `colony` / profile fields
   (weight / rel of a vote token may be `_`: keep the profile's value; the colony persists between votes and is
    grown / shrunk to the ballot's length through add_agent / remove_agent)
   → reached decision permit block abstain total thresholdTag [vote kinds:weight:conf] ## branch tags
@@ -121,7 +123,8 @@ def showResult (cfg : Cfg) (voters : List Voter) (names : List (List Nat)) (r : 
     else s!"{tagPrefix}{showStrategy cfg.strategy}:{if r.reached then "permit" else "block"}"
   joinSp [showBool r.reached, showVT r.decision, toString r.permit, toString r.block,
     toString r.abstain, toString r.total, thresholdTag cfg voters.length r gated,
-    showList (List.zipWith (fun v n => s!"{showVT v.kind}:{showRat v.weight}:{showRat v.conf}:{encodeCps n}") r.votes names)]
+    showList (List.zipWith (fun v n => s!"{showVT v.kind}:{showRat v.weight}:{showRat v.conf}:{encodeCps n}") r.votes names),
+    showStrategy cfg.strategy]
     ++ s!" ## {tag}"
 
 /-- a vote of a fresh, un-stubbed colony (does not touch the driver's own colony) -/
@@ -180,6 +183,18 @@ def step (st : DSt) (toks : List String) : DSt × String :=
     colonyOp st (.remove (decodeCps name)) (some (removeAgent (st.colony.getD []) (decodeCps name)).2)
   | ["setw", name, w] =>
     colonyOp st (.setWeight (decodeCps name) (ratOf w)) (some (setAgentWeight (st.colony.getD []) (decodeCps name) (ratOf w)).2)
+  | ["attr", "strategy", s] =>
+    match strategyOf? s, st.cfg with
+    | some strat, some _ => ((colonyOp st (.assignStrategy strat) none).1, "ok")
+    | _, _ => (st, "bad-op")
+  | ["attr", "threshold", c] => ((colonyOp st (.assignThreshold (customOf c)) none).1, if st.cfg.isSome then "ok" else "bad-op")
+  | ["attr", "minvoters", n] => ((colonyOp st (.assignMinVoters (natD n)) none).1, if st.cfg.isSome then "ok" else "bad-op")
+  | ["ldel", i] =>
+    if natD i < (st.colony.getD []).length then colonyOp st (.deleteAt (natD i)) none else (st, "bad-op")
+  | ["linsert", i, name, w] => colonyOp st (.insertAt (natD i) (decodeCps name) (ratOf w)) none
+  | ["pset", i, w, r] =>
+    if natD i < (st.colony.getD []).length then colonyOp st (.assign (natD i) (optRat w) (optRat r)) none
+    else (st, "bad-op")
   | ["relupd", name, ok] => colonyOp st (.updateReliability (decodeCps name) (boolOf ok)) none
   | ["relall", d] =>
     match voteTypeOf? d with
